@@ -189,7 +189,7 @@ func main() {
 		exit = 2
 	}
 	if exit == 0 {
-		fmt.Printf("OK property=%s tier=%s paths=%d assertions=%d queries=%d wall=%.1fs\n", cfg.ID, *tier, ev.Paths, ev.Asserts, ev.Queries, ev.WallS)
+		fmt.Printf("OK property=%s tier=%s paths=%d assertions_unsat=%d assertions_constant=%d queries=%d wall=%.1fs\n", cfg.ID, *tier, ev.Paths, ev.Asserts, ev.Trivial, ev.Queries, ev.WallS)
 	}
 	os.Exit(exit)
 }
